@@ -785,3 +785,120 @@ def bare_break_in_item_loop(ctx, funcs, rule="LOOP-break", exempt=None):
                 f"`if {short(test, 60)}: break` leaves the loop over `{short(loop.iter, 40)}` without recording anything: the first item that meets the test ends the processing of "
                 f"all items after it (a skipped item calls for `continue`)")
   return n
+
+
+# (n) -------------------------------------------------------------------------------------
+def _opt_num_ann(r) -> bool:
+  if r is None:
+    return False
+  txt = unparse(r).replace("typing.", "")
+  names = {x.id for x in ast.walk(r) if isinstance(x, ast.Name)} | {x.attr for x in ast.walk(r) if isinstance(x, ast.Attribute)}
+  return txt.startswith("Optional[") and bool(names & _NUM_ANN) and not names & {"bool", "str", "List", "Dict", "list", "dict", "Set", "Tuple", "tuple"}
+
+
+def optional_number_getters_typed(ix: Index):
+  """(names declared Optional[number] somewhere, names also declared otherwise somewhere)"""
+  yes, no = set(), set()
+  for f in ix.funcs.values():
+    if f.cls is None:
+      continue
+    (yes if _opt_num_ann(f.node.returns) else no).add(f.name)
+  return yes, no & yes
+
+
+def optional_number_getters(ix: Index) -> typing.Set[str]:
+  """Names of the package's methods whose declared result is Optional[<number>] (get_begin, get_end, ...): every
+  definition of the name that carries an annotation agrees."""
+  yes, no = set(), set()
+  for f in ix.funcs.values():
+    r = f.node.returns
+    if r is None or f.cls is None:
+      continue
+    txt = unparse(r).replace("typing.", "")
+    names = {x.id for x in ast.walk(r) if isinstance(x, ast.Name)} | {x.attr for x in ast.walk(r) if isinstance(x, ast.Attribute)}
+    if txt.startswith("Optional[") and names & _NUM_ANN and not names & {"bool", "str", "List", "Dict", "list", "dict", "Set", "Tuple"}:
+      yes.add(f.name)
+    else:
+      no.add(f.name)
+  return yes - no
+
+
+def optional_number_truthiness(ctx, funcs, rule="LINT-n"):
+  """`if x.get_end():`, `x.get_begin() and ...`, `a if e.get_end() else b` and the same on a local that only ever holds
+  such a result: the getter is declared Optional[number], the number 0 is a legal value distinct from None (an end of 0 s:
+  never active), and the truthiness test sends it down the branch for "not specified"."""
+  ix = ctx.ix
+  from ..typing_lite import Typer, strip_opt
+  ty = Typer(ix)
+  yes, ambiguous = optional_number_getters_typed(ix)
+  n = 0
+  seen_ = set()
+  for f in funcs:
+    env = None
+
+    def is_getter(call):
+      nonlocal env
+      if not (isinstance(call, ast.Call) and isinstance(call.func, ast.Attribute) and call.func.attr in yes and not call.args and not call.keywords):
+        return False
+      if call.func.attr not in ambiguous:
+        return True
+      # the name is also defined with another result type: the receiver's class decides
+      if env is None:
+        env = ty.env(f)
+      if isinstance(call.func.value, ast.Name) and call.func.value.id == "self" and f.cls is not None:
+        t = f.cls
+      else:
+        t = strip_opt(ty.expr_type(f.module, call.func.value, env, f.cls, f))
+      ci = t if isinstance(t, ClassInfo) else (t[1] if isinstance(t, tuple) and len(t) > 1 and t[0] == "inst" and isinstance(t[1], ClassInfo) else None)
+      if ci is None:
+        return False
+      m = ix.lookup_method(ci, call.func.attr)
+      return m is not None and _opt_num_ann(m.node.returns)
+
+    # locals that only hold results of such getters
+    holds: typing.Dict[str, bool] = {}
+    for st in own_nodes(f.node):
+      if isinstance(st, ast.Assign) and len(st.targets) == 1 and isinstance(st.targets[0], ast.Name):
+        v = st.value
+        isg = is_getter(v)
+        holds[st.targets[0].id] = holds.get(st.targets[0].id, True) and isg
+      elif isinstance(st, (ast.AugAssign, ast.For, ast.With, ast.NamedExpr)):
+        for t in ast.walk(st.target if hasattr(st, "target") else st):
+          if isinstance(t, ast.Name) and isinstance(getattr(t, "ctx", None), ast.Store):
+            holds[t.id] = False
+    for a_ in f.node.args.posonlyargs + f.node.args.args + f.node.args.kwonlyargs:
+      holds[a_.arg] = _opt_num_ann(a_.annotation) and a_.arg not in holds
+    for node in own_nodes(f.node):
+      tests = []
+      if isinstance(node, (ast.If, ast.IfExp, ast.While)):
+        tests = [node.test]
+      elif isinstance(node, ast.BoolOp) and isinstance(node.op, ast.And):
+        tests = node.values[:-1]
+      elif isinstance(node, ast.BoolOp) and isinstance(node.op, ast.Or):
+        # `x or <default>` in value position maps None and 0 to the default: harmless only when the default is 0
+        last = node.values[-1]
+        zero = (isinstance(last, ast.Constant) and last.value == 0 and not isinstance(last.value, bool)) or unparse(last) in ("Fraction(0)", "Fraction(0, 1)")
+        tests = [] if zero else node.values[:-1]
+      elif isinstance(node, ast.UnaryOp) and isinstance(node.op, ast.Not):
+        tests = [node.operand]
+      for t in tests:
+        parts = [t]
+        while parts:
+          q = parts.pop()
+          if isinstance(q, ast.UnaryOp) and isinstance(q.op, ast.Not):
+            parts.append(q.operand)
+          elif isinstance(q, ast.BoolOp):
+            parts.extend(q.values)
+          else:
+            hit = None
+            if is_getter(q):
+              hit = unparse(q)
+            elif isinstance(q, ast.Name) and holds.get(q.id):
+              hit = q.id
+            if hit is not None and id(q) not in seen_:
+              seen_.add(id(q))
+              n += 1
+              ctx.bad(rule, f"{f.qualname}|truthiness of {hit}", ctx.where(f.module, q),
+                      f"`{hit}` is an optional number (the getter is declared Optional[...]): the truthiness test treats the value 0 like None, so e.g. an element with end = 0 "
+                      f"(never active) is handled as if it had no end; test `is not None` instead")
+  return n
